@@ -1183,7 +1183,7 @@ def r_prior_value_guard(prog, rep, with_consumer=False):
     a stored result of the *same signature*; command classes read 'I was given a prior value' as 'my definition did not change'."""
     r = rep.rule("R-PRIOR-VALUE-GUARD",
                  "providePriorValue is reached only with a stored result (builtAt != 0) whose signature equals the rule's current one; the "
-                 "update-if-newer shortcut of ExternalCommand::execute — which skips the command — is taken only when a prior value was given", floor=2)
+                 "update-if-newer shortcut of ExternalCommand::execute — which skips the command — is taken only when a prior value was given", floor=2 if with_consumer else 1)
     f = efn(prog, "demandRule")
     pv = f.calls("Task::providePriorValue")
     if not pv:
@@ -1418,6 +1418,30 @@ def r_waitfor_coverage(prog, rep):
                 o = core(c.child("obj"))
                 nm = o.get("n") if o is not None else None
                 r.check(nm in known, "%s|parks-in %s" % (f.name.split("::")[-1], nm), "", "request parked in a container the cycle finder does not know: %s" % nm, f, c)
+    # edges are *accumulated*: several parked requests can name the same awaited rule, so inside a loop over a parked-request container an edge is
+    # added by appending to the key's list (`graph[key].push_back(v)`, or to a local list inserted once per task) — never by a map-level
+    # insert / emplace (keeps only the first requester) or an assignment to graph[key] (keeps only the last)
+    # (every loop of the function but the one over the task table, whose map-level insert adds one fresh key per task)
+    req_loops = [fr for fr in h.nodes if fr.get("k") in ("forrange", "for", "while") and not (fr.get("k") == "forrange" and expr_str(fr.child("range")) == "taskInfos")]
+    n_edges = 0
+    for fr in req_loops:
+        for x in fr.child("body").walk():
+            if x.get("k") == "call" and "obj" in x and "unordered_map" in (x.child("obj").ctype() or "") and "Rule" in (x.child("obj").ctype() or "") and \
+                    next((a for a in h.ancestors(x) if a.get("k") in ("forrange", "for", "while")), None) is fr:
+                nm = (x.get("fn") or "").split("::")[-1]
+                if nm in ("insert", "emplace", "try_emplace", "insert_or_assign"):
+                    r.violation("findCycle|edges-accumulated", "inside the loop over %s a wait-for edge is added with %s(): a second edge for the same rule is dropped from the graph" % (
+                        expr_str(fr.child("range"))[:50] if fr.get("k") == "forrange" else "requests", nm), h, x)
+                elif nm == "operator[]":
+                    par = h.parent_of(x)
+                    while par is not None and par.get("k") in ("cast", "paren", "member"):
+                        par = h.parent_of(par)
+                    if par is not None and (par.get("k") == "bin" and par.get("op") == "=" or par.get("k") == "call" and par.get("op") == "="):
+                        r.violation("findCycle|edges-accumulated", "inside a request loop graph[key] is assigned, not appended to: earlier edges of that rule are lost", h, x)
+                    else:
+                        n_edges += 1
+    if n_edges:
+        r.ok("findCycle|edges-accumulated", "%d append sites in %d request loops" % (n_edges, len(req_loops)), h)
     # all scanning rules' records are visited
     ok = any(fr.get("k") == "forrange" and expr_str(fr.child("range")) == "ruleInfos" for fr in h.nodes) and bool(h.calls("RuleInfo::isScanning"))
     r.check(ok, "findCycle|all-scanning-rules", "", "cycle finder does not visit the scan record of every scanning rule", h)
